@@ -759,10 +759,11 @@ class TypeBlocks(ContainerOperand):
                                 values = full_for_fill(b.dtype,
                                         index_ic.size,
                                         fill_value)
-                                if b.ndim == 1:
-                                    values[index_ic.iloc_dst] = b[index_ic.iloc_src]
-                                else:
-                                    values[index_ic.iloc_dst] = b[index_ic.iloc_src, block_col]
+                                if index_ic.has_common: # without common labels iloc_src and iloc_dst are None
+                                    if b.ndim == 1:
+                                        values[index_ic.iloc_dst] = b[index_ic.iloc_src]
+                                    else:
+                                        values[index_ic.iloc_dst] = b[index_ic.iloc_src, block_col]
                                 values.flags.writeable = False
                                 yield values
                         else:
